@@ -420,7 +420,19 @@ def member_options(style):
     opts.append(('notif', lambda m: dict(req(None, m), id=None)))
     opts.append(('invalid', lambda m: dict(req(3, m), method=1)))     # id 3 recoverable
     opts.append(('invalid', lambda m: 5))                             # not even an object
+    # members that *look like responses* (used only next to a member that does not, see
+    # `looks_like_response_batch`): an object without "method" but with "result", and a valid
+    # request carrying a superfluous "error": null
+    opts.append(('invalid', lambda m: dict({'result': m, 'id': 90 + m},
+                                           **({'jsonrpc': '2.0'} if style == 'v2' else {}))))
+    opts.append(('req', lambda m: dict(req(7, m), error=None)))
     return opts
+
+
+def looks_like_response_batch(members):
+    """the library reads a batch all of whose members carry "result"/"error" as a batch of
+    responses - outside C02"""
+    return all(isinstance(p, dict) and ('result' in p or 'error' in p) for p in members)
 
 
 def limits_for(jr, proto_name, members, order, errs, rich):
@@ -451,6 +463,8 @@ def exhaustive_cases(jr, maxlen, protos, rich, thin=1):
         for n in range(1, maxlen + 1):
             for combo in itertools.product(range(len(opts)), repeat=n):
                 members = [opts[k][1](m) for m, k in enumerate(combo)]
+                if looks_like_response_batch(members):
+                    continue
                 reqs = [m for m, k in enumerate(combo) if opts[k][0] == 'req']
                 for order in itertools.permutations(reqs):
                     count += 1
